@@ -1,4 +1,5 @@
 import WfModel.GenJournal
+import WfModel.GenJournalTable
 import WfProofs.JournalWait
 import WfProofs.JournalWitness
 import WfProofs.JournalReplaying
@@ -461,4 +462,44 @@ theorem C27_observed_order_guard_needed :
       (runCalls "r" {} (({} : Db Nat).insert "r" 0 7) [{ inflight := [5], done := [5], choice := some 5 }]).1.tj.idx = [7] ∧
     (runCalls "r" {} (({} : Db Nat).insert "r" 0 7) [{ inflight := [5], done := [5], choice := some 5 }]).2.1.load "r"
       = [7, 5] := by
+  decide
+
+set_option maxRecDepth 8000 in
+/-- The shapes the history theorems are cut along, re-extracted on every run: the DDL of `workflow_journal` in both
+dialects (auto-incremented `id` primary key = `Db.insert`'s `nextId`; NO uniqueness constraint on `(run_id, seq_num)`,
+so the row numbering `WF` is owed to the writers alone; one migration file touches the table); the initial state of a
+process life (`{}` adapter of `runCalls` / `runLives`: `_entries = None`, `_replay_index = 0`, `_journal = None`,
+`_orphan_purge_done = False`, one cached `TaskJournal(self._run_id, crud)` per adapter); `TaskJournal.load` (idempotent,
+reads the table once); every writing method of `SqliteJournalCrud` is `execute ; commit` on its own connection (the row
+is durable before `record` returns); `delete`'s SQL; table-name plumbing and identifier quoting. -/
+theorem C27_table_source_shape :
+    GenJournalTable.sqliteColumns =
+      ["id INTEGER PRIMARY KEY AUTOINCREMENT", "run_id TEXT NOT NULL", "seq_num INTEGER NOT NULL", "task_key TEXT NOT NULL"] ∧
+    GenJournalTable.pgColumns =
+      ["id SERIAL PRIMARY KEY", "run_id VARCHAR(255) NOT NULL", "seq_num INTEGER NOT NULL", "task_key VARCHAR(512) NOT NULL"] ∧
+    GenJournalTable.sqliteUnique = [] ∧ GenJournalTable.pgUnique = [] ∧
+    GenJournalTable.sqliteOtherStatements = ["CREATE INDEX IF NOT EXISTS idx_workflow_journal_run_id ON workflow_journal (run_id)"] ∧
+    GenJournalTable.pgOtherStatements = GenJournalTable.sqliteOtherStatements ∧
+    GenJournalTable.sqliteFiles = ["0001_init.sql"] ∧ GenJournalTable.pgFiles = ["0001_init.sql"] ∧
+    GenJournalTable.tjInit = ["_entries=None", "_replay_index=0"] ∧
+    GenJournalTable.adapterInit = ["_journal=None", "_orphan_purge_done=False"] ∧
+    GenJournalTable.getOrCreateJournalBody =
+      "if self._journal is None: if self._resolved_pool is not None: crud = PostgresJournalCrud(pool=self._resolved_pool, table_name=self._journal_table_name, schema=self._schema) elif self._db_path is not None: crud = SqliteJournalCrud(db_path=self._db_path, table_name=self._journal_table_name) else: raise RuntimeError('No pool or db_path configured for journal.') self._journal = TaskJournal(self._run_id, crud) ; return self._journal" ∧
+    GenJournal.loadBody =
+      "if self._entries is not None: return ; if self._crud is None: self._entries = [] return ; self._entries = await self._crud.load(self._run_id)" ∧
+    GenJournalTable.sqliteWriteShapes =
+      ["insert=self._connect():execute,commit", "delete=self._connect():execute,commit",
+       "truncate_from=self._connect():execute,commit", "purge_operations_from=self._connect():execute,commit"] ∧
+    GenJournalTable.sqliteConnectBody = "conn = sqlite3.connect(self._db_path) ; try: yield conn finally: conn.close()" ∧
+    GenJournalTable.sqliteCrudInit =
+      ["_db_path=db_path", "_table_ref=_quote_identifier(table_name)", "_ops_table_ref=_quote_identifier('operation_outputs')"] ∧
+    GenJournalTable.pgCrudInit =
+      ["_pool=pool", "_table_ref=_qualified_table_ref(table_name, schema)", "_ops_table_ref=_qualified_table_ref('operation_outputs', schema)"] ∧
+    GenJournal.sqlite_delete = "DELETE FROM T WHERE run_id = ?" ∧ GenJournal.pg_delete = "DELETE FROM T WHERE run_id = $1" ∧
+    GenJournalTable.journalTableName = "'workflow_journal'" ∧ GenJournalTable.defaultJournalTableName = "JOURNAL_TABLE_NAME" ∧
+    GenJournalTable.validIdentifier = "re.compile('^[A-Za-z_][A-Za-z0-9_]*$')" ∧
+    GenJournalTable.quoteIdentifierBody =
+      "if not _VALID_IDENTIFIER.match(name): msg = f'Invalid SQL identifier: {name!r}' raise ValueError(msg) ; return f'\"{name}\"'" ∧
+    GenJournalTable.qualifiedTableRefBody =
+      "ref = _quote_identifier(table_name) ; if schema: ref = f'{_quote_identifier(schema)}.{ref}' ; return ref" := by
   decide
